@@ -33,6 +33,8 @@ type Parser struct {
 	mi         int
 	num        Number
 	rn         rune
+	hi         rune // pending high surrogate of a \uXXXX escape
+	hiEnd      int  // len(tmp) right after its U+FFFD was appended
 	result     Node
 	mode       string
 	nextMode   string
@@ -77,6 +79,7 @@ func (p *Parser) Parse(buf []byte, args ...any) (Node, error) {
 		p.starts = p.starts[:0]
 	}
 	p.result = nil
+	p.hi = 0
 	p.noff = -1
 	p.line = 1
 	p.mode = valueMap
@@ -133,6 +136,7 @@ func (p *Parser) ParseReader(r io.Reader, args ...any) (data Node, err error) {
 		p.starts = p.starts[:0]
 	}
 	p.result = nil
+	p.hi = 0
 	p.noff = -1
 	p.line = 1
 	p.mi = 0
@@ -463,6 +467,7 @@ func (p *Parser) parseBuffer(buf []byte, last bool) error {
 			p.mode = expSignMap
 			continue
 		case strQuote:
+			p.hi = 0
 			p.mode = p.nextMode
 			if p.mode[':'] == colonColon {
 				p.stack = append(p.stack, Key(p.tmp))
@@ -517,8 +522,19 @@ func (p *Parser) parseBuffer(buf []byte, last bool) error {
 				if len(p.runeBytes) < 6 {
 					p.runeBytes = make([]byte, 6)
 				}
+				if 0xDC00 <= p.rn && p.rn <= 0xDFFF && p.hi != 0 && p.hiEnd == len(p.tmp) {
+					// a low surrogate directly after a high one: replace the
+					// U+FFFD written for the high half by the combined rune
+					p.tmp = p.tmp[:p.hiEnd-3]
+					p.rn = 0x10000 + (p.hi-0xD800)<<10 + (p.rn - 0xDC00)
+				}
+				p.hi = 0
 				n := utf8.EncodeRune(p.runeBytes, p.rn)
 				p.tmp = append(p.tmp, p.runeBytes[:n]...)
+				if 0xD800 <= p.rn && p.rn <= 0xDBFF {
+					p.hi = p.rn
+					p.hiEnd = len(p.tmp)
+				}
 				p.mode = stringMap
 			}
 			continue
